@@ -490,10 +490,12 @@ func runT(c tcase) (res string, inconclusive string) {
 			want = "error"
 		}
 		if !settle(r, want) {
-			return "", "operation " + r.op + " did not settle"
+			return "", "timeout: operation " + r.op + " did not settle"
 		}
 	}
-	// 2. operations held in progress, then the queued ones behind them
+	// 2. operations held in progress, then the queued ones behind them. Track and
+	// Untrack only enqueue, but a changed tracker might call the daemon
+	// synchronously: never wait for them on this goroutine without a timeout.
 	for _, phase := range []byte{'i', 'q'} {
 		for _, r := range c.recs {
 			if r.op == "n" || r.op[1] != phase {
@@ -503,18 +505,25 @@ func runT(c tcase) (res string, inconclusive string) {
 			fake.mu.Lock()
 			fake.script[key] = "block"
 			fake.mu.Unlock()
-			if err := issue(r); err != nil {
-				return "", "track: " + err.Error()
-			}
+			done := make(chan error, 1)
+			go func(r rec) { done <- issue(r) }(r)
 			if phase == 'i' {
 				select {
 				case got := <-fake.entered:
 					if got != key {
-						return "", "another call entered the daemon"
+						return "", "timeout: another call entered the daemon"
 					}
 				case <-time.After(waitFor):
-					return "", "operation did not start"
+					return "", "timeout: operation did not start"
 				}
+			}
+			select {
+			case err := <-done:
+				if err != nil {
+					return "", "track: " + err.Error()
+				}
+			case <-time.After(waitFor):
+				return "", "timeout: Track/Untrack did not return"
 			}
 		}
 	}
@@ -1359,18 +1368,42 @@ func main() {
 		}
 		return net
 	}
+	timeouts := 0
+	guardedT := func(c tcase) (string, string) {
+		type rr struct{ res, inc string }
+		ch := make(chan rr, 1)
+		go func() {
+			res, inc := runT(c)
+			ch <- rr{res, inc}
+		}()
+		select {
+		case r := <-ch:
+			return r.res, r.inc
+		case <-time.After(3 * waitFor):
+			return "", "timeout: case did not finish"
+		}
+	}
 	emitT := func(c tcase) {
 		if ok, why := c.realisable(); !ok {
 			out.Line("# skipped %s (%s)", c.input(), why)
 			return
 		}
-		res, inc := runT(c)
-		if inc != "" {
+		res, inc := guardedT(c)
+		if inc != "" && !strings.HasPrefix(inc, "timeout") {
 			// infrastructure trouble: try once more before giving up on the case
-			res, inc = runT(c)
+			res, inc = guardedT(c)
 		}
 		if inc != "" {
 			out.Line("# inconclusive %s (%s)", c.input(), strings.ReplaceAll(inc, "\n", " "))
+			if strings.HasPrefix(inc, "timeout") {
+				timeouts++
+				if timeouts >= 8 {
+					out.Line("# inconclusive giving up: %d cases timed out", timeouts)
+					out.Flush()
+					fmt.Fprintln(os.Stderr, "c06: too many cases timed out (operations do not reach the scripted phase)")
+					os.Exit(3)
+				}
+			}
 			return
 		}
 		out.Line("%s => %s", c.input(), res)
